@@ -6,5 +6,7 @@ CONSTANTS
   Part = "both"
   ListStyle = "versioned"
   Chains = TRUE
+  Configs = {"default"}
+  SampleConfigs = {}
 INVARIANT Emit
 CHECK_DEADLOCK FALSE
